@@ -216,7 +216,46 @@ def run(ctx):
     ctx.floor('R10.5', 'fast-path Ok paths of mcs::Client::read', n, 1)
     # the deframer hands over the complete fast-path PDU: declared length decoded bit-exactly, all of it read (shared with C13)
     import c13
-    ctx.include(c13.run, ('R13.2', 'R13.5'), 'R10.5')
+    ctx.include(c13.run, ('R13.2', 'R13.5', 'R13.6'), 'R10.5')
+    # ---- R10.6 update code: bits 3..0 of updateHeader select the update kind; only code 1 is parsed as bitmap rectangles ----------
+    from bits import Bits, describe
+    ff = ctx.body('core::global::FastPathUpdate::from_fp')
+    spec_codes = {'FastpathUpdatetypeOrders': 0, 'FastpathUpdatetypeBitmap': 1, 'FastpathUpdatetypePalette': 2, 'FastpathUpdatetypeSynchronize': 3,
+                  'FastpathUpdatetypeSurfcmds': 4, 'FastpathUpdatetypePtrNull': 5, 'FastpathUpdatetypePtrDefault': 6, 'FastpathUpdatetypePtrPosition': 8,
+                  'FastpathUpdatetypeColor': 9, 'FastpathUpdatetypeCached': 10, 'FastpathUpdatetypePointer': 11}
+    ev = dict(P.enum_variants('core::global::FastPathUpdateType'))
+    for nm, val in spec_codes.items():
+        ctx.check(ev.get(nm) == val, 'R10.6', 'code:%s' % nm, 'update code %s = %d (MS-RDPBCGR 2.2.9.1.2.1)' % (nm, val), ff.where(),
+                  'FastPathUpdateType::%s has value %s, MS-RDPBCGR 2.2.9.1.2.1 says %d' % (nm, ev.get(nm), val))
+    n_code = n_bmp = 0
+    for path, st in feasible_paths(ff, P, limit=100000):
+        conv = [e for e in path_calls(st) if 'FastPathUpdateType as std::convert::TryFrom' in e[1].callee]
+        if not conv:
+            continue
+        arg = resolve(st, conv[0][2][0])
+        B = Bits()
+        bits = B.eval(arg, 8, 8)
+        leaf_ok = len(B.leaves) == 1 and 'updateHeader' in keys_in(B.leaves[0])
+        want = [(0, k) for k in range(4)] + [0, 0, 0, 0]
+        n_code += 1
+        ctx.check(leaf_ok and bits == want, 'R10.6', 'code:bits', 'the update code is bits 3..0 of updateHeader [%s]' % describe(bits, {0: 'updateHeader'}), ff.where(),
+                  'the update kind is decoded from updateHeader as [%s]; MS-RDPBCGR 2.2.9.1.2.1: updateCode = bits 3..0 (fragmentation 5..4, compression 7..6): '
+                  'another update kind can be taken for a bitmap update' % describe(bits, {0: 'updateHeader'}))
+        calls = [e[1].callee for e in path_calls(st)]
+        if any(c.endswith('ts_fp_update_bitmap') for c in calls):
+            n_bmp += 1
+            sel = None
+            for br in path_branches(st):
+                d = strip(resolve(st, br[2]))
+                if d[0] == 'discr' and br[3] is not None and any(n[0] == 'call' and 'FastPathUpdateType as std::convert::TryFrom' in n[1] for n in walk(d)) \
+                        and not any(n[0] == 'call' and n[1].endswith('Try>::branch') for n in walk(d)):
+                    sel = br[3]
+                elif d[0] == 'discr' and br[3] is not None and strip(d[1])[0] in ('field', 'variant', 'call') and 'FastPathUpdateType' in str(br[2]) and sel is None:
+                    sel = br[3]
+            ctx.check(sel == ev.get('FastpathUpdatetypeBitmap'), 'R10.6', 'code:bitmap_arm', 'only update code FastpathUpdatetypeBitmap is parsed with the bitmap layout', ff.where(),
+                      'the bitmap layout is selected by update kind discriminant %s, not FastpathUpdatetypeBitmap' % sel)
+    ctx.floor('R10.6', 'paths of from_fp that convert the update code', n_code, 2)
+    ctx.floor('R10.6', 'paths of from_fp that build a bitmap update', n_bmp, 1)
     rr = ctx.body('core::client::RdpClient::<S>::read')
     gl = rr.calls_to('core::global::Client::read')
     ctx.check(len(gl) == 1, 'R10.5', 'rdpclient:dispatch', 'RdpClient::read dispatches to global::Client::read', rr.where())
